@@ -100,6 +100,9 @@ func genAltCase(e *Env) *jAltCase {
 			}
 			op := jAltOp{Kind: "alter", Fields: nf}
 			if r.Intn(3) == 0 {
+				op.Kind = "realter" // the new definition is applied by restarting the database with it
+			}
+			if r.Intn(3) == 0 {
 				op.HasW = true
 				if r.Intn(4) > 0 {
 					op.Where = genPred(r, 1)
@@ -122,6 +125,15 @@ func genAltCase(e *Env) *jAltCase {
 			cur = nf
 			c.Ops = append(c.Ops, op)
 			if r.Intn(2) == 0 {
+				c.Queries = append(c.Queries, len(c.Ops))
+			}
+			if op.Kind == "realter" && r.Intn(2) == 0 {
+				// a flush right after the restart, while most keys have no new data in memory
+				if r.Intn(2) == 0 {
+					p := genDBPoints(r, t, 1)[0]
+					c.Ops = append(c.Ops, jAltOp{Kind: "ins", P: &p})
+				}
+				c.Ops = append(c.Ops, jAltOp{Kind: "flush"})
 				c.Queries = append(c.Queries, len(c.Ops))
 			}
 		default:
@@ -202,9 +214,14 @@ func runAltCase(e *Env, c *jAltCase) error {
 			}
 			db.VerifAdvanceClock(now)
 			opsGal = append(opsGal, "AReopen")
-		case "alter":
+		case "alter", "realter":
 			if err := waitCaughtUp(db, "t", 0); err != nil {
 				return err
+			}
+			var clockBefore time.Time
+			if op.Kind == "realter" {
+				clockBefore = db.VerifNow()
+				db.Close()
 			}
 			t.Fields = op.Fields
 			if op.HasW {
@@ -212,7 +229,14 @@ func runAltCase(e *Env, c *jAltCase) error {
 				wheres = append(wheres, op.Where)
 				whereIdx = len(wheres) - 1
 			}
-			if err := db.ApplySchema(zenodb.Schema{"t": &zenodb.TableOpts{MinFlushLatency: time.Hour, MaxFlushLatency: 2 * time.Hour,
+			if op.Kind == "realter" {
+				db, err = openDB(dir, &t, "t")
+				if err != nil {
+					return fmt.Errorf("reopen with new definition %q: %v", t.SQL(), err)
+				}
+				db.VerifAdvanceClock(clockBefore)
+				e.Count("alter_across_restart")
+			} else if err := db.ApplySchema(zenodb.Schema{"t": &zenodb.TableOpts{MinFlushLatency: time.Hour, MaxFlushLatency: 2 * time.Hour,
 				RetentionPeriod: time.Duration(t.RetNS), SQL: t.SQL()}}); err != nil {
 				return fmt.Errorf("alter to %q: %v", t.SQL(), err)
 			}
